@@ -22,6 +22,8 @@ ASSUMPTIONS = ["CPython reference counting plus gc.collect() after every step; i
                "tools documented to accumulate (cycle, sorted, list/tuple/set/dict, tee for lagging children) are not bounded"]
 SLACK = 3
 HEAVY = True   # few, long cases: one worker per case
+CASE_TIMEOUT = 600   # the thorough sizes run gc.collect() a few thousand times per case
+AMPLIFY = "search"   # a changed source amplifies through search_cases (a third, larger stream size), not the thorough tier
 
 
 class Source:
@@ -50,6 +52,63 @@ class Source:
 
     async def aclose(self):
         self.i = self.n
+
+
+class Page:
+    """an async iterator that carries its own data (a fetched page / chunk): whoever keeps the page keeps its rows"""
+
+    def __init__(self, rows):
+        self.rows, self.i = rows, 0
+
+    def __aiter__(self):
+        return self
+
+    async def __anext__(self):
+        if self.i >= len(self.rows):
+            raise StopAsyncIteration
+        self.i += 1
+        return self.rows[self.i - 1]
+
+    async def aclose(self):
+        self.i = len(self.rows)
+
+
+class PageSource(Source):
+    """outer stream of pages of 3 rows each (n rows in total)"""
+
+    async def __anext__(self):
+        if self.probe is not None:
+            self.probe()
+        if self.i >= self.n:
+            raise StopAsyncIteration
+        rows = [Item(self.base + j, j) for j in range(self.i, min(self.i + 3, self.n))]
+        self.i += 3
+        self.refs.extend(weakref.ref(r) for r in rows)
+        page = Page(rows)
+        self.refs.append(weakref.ref(page))    # the pages are the items of the outer stream
+        return page
+
+
+class LazyReiterable:
+    """a *synchronous* iterable that is neither an iterator nor a sequence and produces its items on demand
+    (a record reader, a paginated result): draining it up front keeps the whole stream alive"""
+
+    def __init__(self, n, refs, probe=None, base=0, keyf=None):
+        self.n, self.refs, self.probe, self.base, self.keyf = n, refs, probe, base, keyf
+
+    def __iter__(self):
+        for i in range(self.n):
+            if self.probe is not None:
+                self.probe()
+            it = Item(self.base + i, self.keyf(i) if self.keyf else i)
+            self.refs.append(weakref.ref(it))
+            yield it
+            del it
+        if self.probe is not None:
+            self.probe()
+
+
+SRC_CLASS = {"pages": PageSource, "reiter": LazyReiterable}
 
 
 def alive(refs):
@@ -82,6 +141,13 @@ TOOLS = {
     "zip_longest": (lambda S: A.zip_longest(S[0], S[1]), 2, 0),
     "merge2": (lambda S: A.merge(S[0], S[1]), 2, 2),
     "merge3key": (lambda S: A.merge(S[0], S[1], S[2], key=lambda x: x.key), 3, 3),
+    # inner iterables that own their rows: the chain may keep the current page only
+    "chain_from_iterable_pages": (lambda S: A.chain.from_iterable(S[0]), 1, 4, "pages"),
+    # lazily producing synchronous re-iterables (not Iterator, not Sequence)
+    "filter_reiter": (lambda S: A.filter(lambda x: x.key % 2, S[0]), 1, 0, "reiter"),
+    "zip_reiter": (lambda S: A.zip(S[0], S[1]), 2, 0, "reiter"),
+    "batched3_reiter": (lambda S: A.batched(S[0], 3), 1, 3, "reiter"),
+    "merge2_reiter": (lambda S: A.merge(S[0], S[1]), 2, 2, "reiter"),
 }
 AGGS = {
     "all": (lambda S: A.all(S[0]), 0), "any": (lambda S: A.any(A.map(lambda x: False, S[0])), 0),
@@ -94,6 +160,9 @@ AGGS = {
     "nsmallest3_const_key": (lambda S: A.nsmallest(S[0], 3, key=lambda x: 0), 3),
     "nlargest2_all_equal": (lambda S: A.nlargest(S[0], 2), 2, lambda i: 7),
     "min_ties": (lambda S: A.min(S[0]), 1, lambda i: i % 2), "max_all_equal": (lambda S: A.max(S[0]), 1, lambda i: 5),
+    "sum_reiter": (lambda S: A.sum(A.map(lambda x: 1, S[0])), 0, None, "reiter"),
+    "nlargest4_reiter": (lambda S: A.nlargest(S[0], 4), 4, None, "reiter"),
+    "min_reiter": (lambda S: A.min(S[0]), 1, None, "reiter"),
 }
 TEE_PATTERNS = ["lockstep", "lead5", "lag-then-catch-up", "close-started-child", "close-unstarted-child",
                 "child-killed-by-athrow", "child-killed-by-source-error"]
@@ -151,9 +220,10 @@ def cases(tier, rng):
 
 
 def _run_gen(name, n):
-    build, nsrc, _ = TOOLS[name]
+    build, nsrc = TOOLS[name][0], TOOLS[name][1]
     refs = []
-    S = [Source(n, refs, base=1000000 * i) for i in range(nsrc)]
+    cls = SRC_CLASS.get(TOOLS[name][3], Source) if len(TOOLS[name]) > 3 else Source
+    S = [cls(n, refs, base=1000000 * i) for i in range(nsrc)]
     it = build(S)
     worst = 0
     while True:
@@ -168,13 +238,14 @@ def _run_gen(name, n):
 
 def _run_agg(name, n):
     build = AGGS[name][0]
-    keyf = AGGS[name][2] if len(AGGS[name]) > 2 else (lambda i: (i * 7919) % 1000)
+    keyf = AGGS[name][2] if len(AGGS[name]) > 2 and AGGS[name][2] is not None else (lambda i: (i * 7919) % 1000)
+    cls = SRC_CLASS.get(AGGS[name][3], Source) if len(AGGS[name]) > 3 else Source
     refs = []
     state = {"worst": 0}
 
     def probe():
         state["worst"] = max(state["worst"], alive(refs))
-    S = [Source(n, refs, probe, keyf=keyf)]
+    S = [cls(n, refs, probe, keyf=keyf)]
     res = drive(build(S))
     if res.exc is not None:
         return -1
@@ -271,7 +342,7 @@ def observe(case):
 
 def bound(case):
     if case["family"] == "gen":
-        _, nsrc, window = TOOLS[case["tool"]]
+        nsrc, window = TOOLS[case["tool"]][1], TOOLS[case["tool"]][2]
         return 2 * nsrc + window + SLACK
     if case["family"] == "agg":
         return 2 + AGGS[case["tool"]][1] + SLACK
@@ -311,4 +382,6 @@ def nontrivial(case, obs):
 
 
 def search_cases(broken, rng):
-    return []
+    """a third stream size: growth that only shows between 240 and 720 items (amortised containers, thresholds)"""
+    for case in cases("quick", rng):
+        yield dict(case, sizes=[120, 720])
